@@ -365,7 +365,13 @@ impl Sim {
                     if revs != m.events {
                         let d = format!("{}: events of response {} differ: real [{}] expected [{}]", what, i, fmt_evs(&revs), fmt_evs(&m.events));
                         let mut props = vec!["C04", "C01"];
-                        if revs.iter().chain(m.events.iter()).any(|e| e.attrs.iter().any(|(k, _)| bad_attr_key(k) && k != CONTRACT_ATTR)) {
+                        // C13: accepted strings surface unchanged — attributed when the events differ in content
+                        // (some type / key / value string), not merely in order
+                        let mut ra: Vec<String> = revs.iter().map(fmt_ev).collect();
+                        let mut ma: Vec<String> = m.events.iter().map(fmt_ev).collect();
+                        ra.sort();
+                        ma.sort();
+                        if ra != ma || revs.iter().chain(m.events.iter()).any(|e| e.attrs.iter().any(|(k, _)| bad_attr_key(k) && k != CONTRACT_ATTR)) {
                             props.push("C13");
                         }
                         self.v(&props, "events_mismatch", d);
@@ -484,7 +490,7 @@ impl Sim {
                             self.v(&["C03", "C02"], "reply_result", format!("{}: reply result ok={} expected ok={}", at, a.ok, b.ok));
                         }
                         if a.events != b.events {
-                            self.v(&["C03", "C04"], "reply_events", format!("{}: Reply carried events [{}] expected [{}]", at, fmt_evs(&a.events), fmt_evs(&b.events)));
+                            self.v(&["C03", "C04", "C13"], "reply_events", format!("{}: Reply carried events [{}] expected [{}]", at, fmt_evs(&a.events), fmt_evs(&b.events)));
                         }
                         if a.data != b.data {
                             self.v(&["C03", "C04"], "reply_data", format!("{}: Reply carried data {:?} expected {:?}", at, a.data.as_ref().map(|d| hex(d)), b.data.as_ref().map(|d| hex(d))));
